@@ -2,6 +2,9 @@
 """tools/run_seeds.py [ID ...] : apply every kept seeded change to /repo in turn, run the quick check of
 its property, undo, and print the detection matrix (also written to out/seed_matrix.json)."""
 import glob, json, os, subprocess, sys
+import fcntl
+_lock = open("/tmp/verif-repo.lock", "w")
+fcntl.flock(_lock, fcntl.LOCK_EX)
 want = set(a.upper() for a in sys.argv[1:])
 rows = []
 for d in sorted(glob.glob("/verif/seeded/*/")):
